@@ -500,7 +500,10 @@ def timezone_name(dt, version=LATEST_VER):
         return 'UTC'
 
     for olson_name, haystack_name in list(tz_rmap.items()):
-        if pytz.timezone(olson_name).utcoffset(dt_notz) == offset:
+        # Compare at the instant the value denotes: its wall-clock time may
+        # be ambiguous or skipped in the candidate zone, which pytz refuses
+        # to resolve for a naive date/time.
+        if dt.astimezone(pytz.timezone(olson_name)).utcoffset() == offset:
             return haystack_name
 
     raise ValueError('Unable to get timezone of %r' % dt)
